@@ -21,4 +21,5 @@ var Checks = map[string]func(*core.Env){
 	"C08": C08,
 	"C07": C07,
 	"C05": C05,
+	"C15": C15,
 }
